@@ -20,7 +20,7 @@ func TestVerif_C19(t *testing.T) {
 	r.SetRule("case = PRNG (fault profile: loss<=35%, dup<=15%, reorder<=30%, delay/jitter, consecutive-drop cap 2-4; buffer-size configs per side; 1-N streams of all four kinds with PRNG sizes, write chunking, Flush pattern and read sizes) run between two real Endpoints in a synctest bubble; non-trivial = run in which the sender retransmitted at least one STREAM range AND the receiver saw at least one out-of-order STREAM arrival; distinct by (streams, bytes, retransmits, out-of-order count, virtual duration)")
 	r.Assume("the qlog tap (Config.QLogLogger) reports every packet the connection processes; cross-checked against the number of QUIC packets parsed from the datagrams on the simulated wire")
 	r.Assume("fault decisions are a function of (seed, direction, datagram sequence number); goroutine scheduling inside the bubble is not replayed bit-exactly")
-	n := r.N(240, 800)
+	n := r.N(240, 1500)
 	maxStreams, maxTotal := 8, int64(600<<10)
 	if r.Thorough() {
 		maxStreams, maxTotal = 24, 2<<20
@@ -103,7 +103,7 @@ func TestVerif_C19(t *testing.T) {
 	// every byte and the FIN. Deterministic (no goroutine races), so a case replays exactly;
 	// it reaches the sender-side corners the random network rarely hits (a FIN in a packet of
 	// its own, probes that truncate a frame, partial acknowledgements).
-	ns := r.N(1500, 12000)
+	ns := r.N(1500, 24000)
 	r.CasesParallel("scripted-receiver", ns, 0, func(c *verifrt.Case) {
 		rng := c.Rng
 		side := []connSide{clientSide, serverSide}[rng.IntN(2)]
